@@ -192,6 +192,45 @@ def run(ctx):
     for (case, il), mo in zip(pend, ctx.model.ask(lines)):
         ctx.compare('sched-ctor', case, mo, il)
 
+    # callables of every kind are refused when scheduled: functools.partial, bound methods, objects with __call__, and
+    # the library's own exp_decay_factor_averaging() schedule
+    import functools
+    from kfac.hyperparams import exp_decay_factor_averaging as _eda
+
+    class _Sched:
+        def __call__(self, st):
+            return 0.5
+
+        def method(self, st):
+            return 0.5
+    kinds = {'partial': lambda: functools.partial(lambda a, st: 0.5, 1), 'bound-method': lambda: _Sched().method,
+             'callable-object': lambda: _Sched(), 'exp_decay': lambda: _eda(0.95), 'builtin': lambda: abs}
+    import torch as _t
+    from kfac.preconditioner import KFACPreconditioner as _KP
+    for kind, mk_ in kinds.items():
+        for j, n in enumerate(NAMES):
+            if kind == 'exp_decay' and n != 'factor_decay':
+                continue
+            base = dict(zip(NAMES, [2, 4, 0.5, 0.75, 0.25, 0.5]))
+            base[n] = mk_()
+            case = {'stream': 'ctor-callable-kinds', 'kind': kind, 'parameter': n}
+            try:
+                pc = _KP(_t.nn.Linear(2, 2), **base)
+            except Exception as e:  # noqa: BLE001  (the preconditioner itself may refuse a kind: nothing to check then)
+                ctx.count('ctor-kind-not-constructible')
+                continue
+            try:
+                LambdaParamScheduler(pc, **{n + '_lambda': (lambda st: 1.0)})
+                got = 'ok'
+            except ValueError:
+                got = 'ValueError'
+            except Exception as e:  # noqa: BLE001
+                got = type(e).__name__
+            if got != 'ValueError':
+                ctx.fail(f'scheduling {n}, which the preconditioner holds as a {kind}, gave {got} at construction; the statement says it is refused', case, 'ctor-callable-kind')
+            ctx.evaluations += 1
+            ctx.count('ctor-kind-' + kind)
+
     # exp_decay_factor_averaging ------------------------------------------------------------
     from kfac.hyperparams import exp_decay_factor_averaging
     kmax = ctx.budget(600, 4096)
